@@ -14,7 +14,7 @@ from ..model_ac import ModelAC
 ID = "C07"
 LEVEL = "exploration"
 SHARDS = {"quick": 8, "thorough": 16}
-RULE = ("model-based histories against a model V3 device (configuration: max connection lifetime in {None, 30 s, 600 s}; credentials, which begin with zero bytes, passed as bytes or as hex strings); events "
+RULE = ("model-based histories against a model V3 device (configuration: max connection lifetime in {None, 30 s, 600 s}, which the application may set again to the same value at any point of the history; credentials, which begin with zero bytes, passed as bytes or as hex strings); events "
         "from {send, send with the device silent, send answered by an error packet, send during which the peer closes, next "
         "connect refused, explicit authenticate with good credentials / bad token / bad key / while the device ignores handshakes / while the device refuses connections, a send whose handshake reply arrives damaged, sleep past 12 h, sleep past the "
         "connection lifetime, short sleep, cancel the running send/authenticate at a protocol phase}; up to 30 (quick) / 60 "
@@ -219,6 +219,10 @@ def check_history(case: dict):
                     await asyncio.sleep((lifetime or 30) + 20 + ev[1])
                 elif k == "sleep":
                     await asyncio.sleep(ev[1])
+                elif k == "reconfigure":
+                    # the application sets the connection lifetime again, to the value it already has (e.g. on every start of
+                    # its polling loop): nothing about the current connection's age changes
+                    ac.set_max_connection_lifetime(lifetime)
                 elif k == "cancel":
                     faulted = True
                     if ev[2] == "auth":
@@ -357,7 +361,7 @@ def events(max_len: int):
         st.just(["send"]), st.just(["send"]), st.just(["send"]), st.just(["send_silent"]), st.just(["send_error"]), st.just(["send_close"]),
         st.just(["refuse"]), st.just(["auth_good"]), st.just(["auth_bad_token"]), st.just(["auth_bad_key"]), st.just(["auth_silent"]), st.just(["auth_refused"]), st.just(["send_garbled_hs"]),
         st.integers(0, 100).map(lambda x: ["sleep_12h", x]), st.integers(0, 100).map(lambda x: ["sleep_life", x]),
-        st.sampled_from([0.01, 0.5, 3.0, 29.0, 31.0, 599.0, 3600.0]).map(lambda x: ["sleep", x]),
+        st.sampled_from([0.01, 0.5, 3.0, 29.0, 31.0, 599.0, 3600.0]).map(lambda x: ["sleep", x]), st.just(["reconfigure"]),
         st.tuples(st.sampled_from(phases), st.sampled_from([0.0, 0.01, -0.01]), st.sampled_from(["send", "send", "auth"])).map(lambda t: ["cancel", round(t[0] + t[1], 3), t[2]]),
     )
     body = st.lists(ev, min_size=1, max_size=max_len)
@@ -382,6 +386,8 @@ def run(ctx) -> None:
                 scripts.append({"config": {"lifetime": lifetime, "hex": len(scripts) % 2 == 0}, "events": [["auth_good"]] + [[p] for p in prefix] + [tail, ["send"], ["send"]]})
                 scripts.append({"config": {"lifetime": lifetime}, "events": [["auth_good"]] + [[p] for p in prefix] + [tail, ["auth_bad_key"], ["send"], ["send"]]})
                 scripts.append({"config": {"lifetime": lifetime}, "events": [["auth_good"]] + [[p] for p in prefix] + [tail, ["send_garbled_hs"], ["send"]]})
+        scripts.append({"config": {"lifetime": lifetime}, "events": [["auth_good"], ["send"], ["reconfigure"], ["sleep_life", 0], ["send"], ["send"]]})
+        scripts.append({"config": {"lifetime": lifetime}, "events": [["auth_good"], ["send"], ["sleep", 10.0], ["reconfigure"], ["sleep", (lifetime or 30) - 5.0], ["send"], ["reconfigure"], ["send"]]})
         for first_ev in (["auth_silent"], ["auth_refused"], ["cancel", 0.02, "auth"], ["cancel", 0.5, "auth"], ["auth_bad_token"], ["auth_bad_key"]):
             scripts.append({"config": {"lifetime": lifetime}, "events": [first_ev, ["send"], ["auth_good"], ["send"]]})
     for i, case in enumerate(scripts):
